@@ -38,6 +38,18 @@ def gen_batch(draw):
                   "attrs": [["Cryptographic Usage Mask", 12]]})       # fails at commit time
     n = draw(st.sampled_from([1, 2, 2, 3, 3, 4, 5, 6]))
     items = []
+    if draw(st.integers(0, 5)) == 0:
+        # a creating item, then items that name other objects (reads, Locates, state changes),
+        # then an identifier-less item: the placeholder still denotes the created object
+        creators = [i for l, i in pool if l.startswith("ok/") and i["op"] in CREATORS]
+        between = [i for l, i in pool if l.startswith(("ok/Locate", "ok/Get", "ok/Query", "ok/Activate",
+                                                       "fail/Get", "ok/Encrypt"))]
+        items.append(copy.deepcopy(draw(st.sampled_from(creators))))
+        for _ in range(draw(st.integers(1, 2))):
+            items.append(copy.deepcopy(draw(st.sampled_from(between))))
+        op = draw(st.sampled_from(["Get", "GetAttributes", "Activate", "GetAttributeList", "Destroy"]))
+        items.append(hist.placeholder_item(op, v))
+        n = 0
     for k in range(n):
         kind = draw(st.sampled_from(["ok", "ok", "ok", "fail", "fail", "placeholder"]))
         if kind == "ok":
